@@ -47,7 +47,7 @@ class Exec(Family):
         "C07 attribution: a sibling node executes the same blocks without the transactions that failed; every state-store key that differs must be the failed sender's account record or an admin's; if a non-failed receipt differs between the two nodes the rest of the trace is not judged (counted)",
         "C08 input domain: transactions with non-nil From/To/hash and a (valid or invalid) signature, as admission lets through; byte-level payload space is sampled, the contract-method x argument-shape space is enumerated by reflection on the live contracts",
         "C14: harness genesis balance 1e8 per admin and gas price 1 so that all balances fit TLC integers; per-transaction exactness is judged on single-transaction blocks, sums on every block",
-        "a dead adapter process is an observation (node crash), timeouts of 60 s per block count as wedged",
+        "a dead adapter process is an observation (node crash), a block not executed within 180 s counts as wedged; a liveness observation that does not come back in three re-runs of the same inputs is reported as UNREPRODUCED and recorded here, not judged",
     ]
 
     def mc_runs(self, prop, tier):
